@@ -91,9 +91,9 @@ func binName(mode string) string {
 		dir = filepath.Join(root, "work", "alt-"+altTag, "bin")
 	}
 	if mode == "plain" {
-		return filepath.Join(dir, "vchild")
+		return filepath.Join(dir, "vchild-"+devOnly)
 	}
-	return filepath.Join(dir, "vchild-"+mode)
+	return filepath.Join(dir, "vchild-"+devOnly+"-"+mode)
 }
 
 func altModfile() (string, error) {
@@ -138,8 +138,6 @@ func build(mode string) error {
 	tmp := fmt.Sprintf("%s.tmp.%d", binName(mode), os.Getpid())
 	target := "./cmd/vchild"
 	if devOnly != "" {
-		// development aid: link only one property package so that a half-written package of
-		// another property cannot break this build. Registered checks never set VERIF_DEV_ONLY.
 		dir := filepath.Join(root, "harness", "cmd", "_dev_"+devOnly)
 		os.MkdirAll(dir, 0755)
 		src, _ := os.ReadFile(filepath.Join(root, "harness", "cmd", "vchild", "main.go"))
@@ -452,9 +450,9 @@ func main() {
 	if rp != nil {
 		tier, seed = rp.Tier, rp.Seed
 	}
-	if os.Getenv("VERIF_DEV_ONLY") != "" {
-		devOnly = strings.ToLower(prop)
-	}
+	// one child binary per property (generated main importing only that property's package):
+	// a compile error in another property's package cannot break this check
+	devOnly = strings.ToLower(prop)
 	plan, ok := plans[prop]
 	if !ok {
 		fmt.Println("INCONCLUSIVE property=" + prop + " reason=unknown-property")
